@@ -102,6 +102,12 @@ def attribute(err, rep, gen_lines):
             if err['msg'].startswith('precondition not satisfied') and site:
                 return dict(module=site[0], fn=site[1], kind='safety', label='precond:%s::%s' % (o['module'], o['label']), tags=['C15'], line=ln, msg=err['msg'], text=o['text'])
             return o
+    # a failure inside injected proof text (a lemma precondition, an auxiliary assert): the hint no longer fits the code.
+    # It is not an obligation of the code; the labelled clause it was meant to support fails on its own if the property broke.
+    if err['primary'] in set(rep.get('hint_lines', [])):
+        f = in_fn(err['primary'])
+        return dict(module=f[0] if f else '?', fn=f[1] if f else '?', kind='hint', label='proof-hint', tags=[], line=err['primary'], msg=err['msg'],
+                    text=gen_lines[err['primary'] - 1].strip())
     # otherwise a built-in obligation: locate the enclosing function
     where = None
     for ln in [err['primary']] + err['lines']:
@@ -166,7 +172,7 @@ _PROBE = {}
 def probe_build():
     """build /verif/probe against REPO's working tree; returns path of the binary or None"""
     if 'bin' in _PROBE: return _PROBE['bin'], _PROBE.get('msg', '')
-    pdir = os.path.join(ROOT, 'probe')
+    pdir = os.environ.get('VERIF_PROBE_DIR', os.path.join(ROOT, 'probe'))
     tdir = os.environ.get('VERIF_PROBE_TARGET', os.path.join(ROOT, 'gen', 'probe-target'))
     env = dict(os.environ, CARGO_NET_OFFLINE='true', CARGO_TARGET_DIR=tdir)
     cargo = open(os.path.join(pdir, 'Cargo.toml.in')).read().replace('@REPO@', REPO)
@@ -219,7 +225,7 @@ def main():
         if rc == 1: print('VIOLATION property=%s replay=%s' % (pid, path)); sys.exit(1)
         sys.exit(0 if rc == 0 else 2)
     t0 = time.time()
-    gdir = os.path.join(ROOT, 'gen', pid)
+    gdir = os.path.join(os.environ.get('VERIF_GEN', os.path.join(ROOT, 'gen')), pid)
     os.makedirs(gdir, exist_ok=True)
     os.makedirs(os.path.join(ROOT, 'evidence'), exist_ok=True)
     os.makedirs(os.path.join(ROOT, 'replay'), exist_ok=True)
@@ -352,9 +358,9 @@ def main():
                   samples=[dict(obligation='%s::%s [%s]' % (o['module'], o['fn'], o['label']), clause=o['text'][:300]) for o in obl[:6]]
                           + [dict(lemma=k) for k in lemma_fns[:4]]),
               assumptions=ASSUMPTIONS)
-    json.dump(ev, open(os.path.join(ROOT, 'evidence', pid + '.json'), 'w'), indent=1)
+    json.dump(ev, open(os.path.join(os.environ.get('VERIF_EVIDENCE_DIR', os.path.join(ROOT, 'evidence')), pid + '.json'), 'w'), indent=1)
     if violation:
-        rp = os.path.join(ROOT, 'replay', '%s-%d.json' % (pid, int(time.time())))
+        rp = os.path.join(os.environ.get('VERIF_REPLAY_DIR', os.path.join(ROOT, 'replay')), '%s-%d.json' % (pid, int(time.time())))
         found = probe.get('found')
         json.dump(dict(property=pid, violation=violation['kind'], case=probe.get('case') if found else None,
                        failed_obligations=[dict(module=f['module'], fn=f['fn'], label=f['label'], line=f['line'], msg=f['msg'], clause=f.get('text')) for f in violation['failed']],
